@@ -176,6 +176,14 @@ theorem c05_reads_lists_fresh :
     100 ≤ C05Reads.accessCount ∧ 500 ≤ C05Reads.accessCountAll ∧ 25 ≤ C05Reads.tuCount ∧ C05Reads.allowed.length = C05Reads.allowedCount ∧
     C05Reads.findingRows.length = C05Reads.findingCount := by decide +kernel
 
+/-- the members treated as "restored exactly" in the read sets are element counters of live array rows of the
+    descriptor table (the loader re-derives them from the payload size: `c05_load_restores_struct`) and are not
+    written by any unit outside the review (they are absent from `findingRows`) -/
+theorem c05_reads_restored_counters :
+    C05Reads.restoredCounters.all (fun m => (live table).any (fun d =>
+      (d.dtype == .pointer || d.dtype == .pointerAligned || d.dtype == .dp7) && d.nMem == m)) = true ∧
+    C05Reads.findingRows.all (fun a => !C05Reads.restoredCounters.contains a.2) = true := by decide +kernel
+
 /-- the read-set table and the descriptor table agree on which members are persisted -/
 theorem c05_reads_persisted_consistent :
     members.all (fun m => C05Reads.persistedMembers.contains m.idx == persisted particleSize table m.idx) = true := by
